@@ -20,6 +20,18 @@ claimed={
 "C19":dict(level_text="Coq proofs over Z with explicit i64/i32 casts that each adapter deserialises what it serialises to the same value for ALL i64 / all valid dates of years 1..9999 (zero and the empty string mapping to absent), and that any wire value that deserialises to a present value denotes exactly that value (soundness of the decimal parser, of the u64/i64 dispatch and of the YYYYMMDD split). The model is tied to the template files, compiled verbatim into the harness and driven through serde_json, on ~62k values and wire forms per run. The `emitted exactly when needed` clause is decided with the emission model (see notes).",
   design_ref="DESIGN.md 7 (C19)",
   note="Trusted: serde_json's visitor dispatch and chrono::NaiveDate::from_ymd_opt as modelled in Adapters.v (exercised on every case)."),
+"C08":dict(level_text="Coq proof that the owned Rust type emitted for a schema equals the documented type function (Spec/DocTy.v, written from the property text) at ANY nesting depth and through any chain of $refs, arrays and single-member allOf; that a reference gets the same type as model field and as parameter; that the borrowed form is used exactly for String and nested lists of strings; and that the result is the first declared status among 200,201,202,204,302. Model tied to the real extractor by equality of the whole HirSpec on ~1600 generated specs per run plus a direct oracle re-computing the documented type in Rust.",
+  design_ref="DESIGN.md 7 (C08)",
+  note="Trusted: openapiv3-extended accessors as modelled in OpenApi.v (exercised by the correspondence); emitted field/argument token types are tied at the emission level (notes)."),
+"C07":dict(level_text="Coq proof that the table handed to the code generator is closed (every model name mentioned by an operation input/result or a retained record is a key) for every document without array-components-with-inline-items, by induction over the whole extraction (components fold, operations fold, invented response names) and both pruning passes incl. the nullable-alias rewrite; that a pass keeps everything mentioned and preserves reachability from the operations. The excluded shape is refuted by a Coq witness and is an open known finding. HirSpec before and after pruning compared with the real extractor on every generated spec.",
+  design_ref="DESIGN.md 7 (C07)",
+  note="Trusted as C08. `model file per schema` is tied at the emission level (notes)."),
+"C06":dict(level_text="Coq proof that pascal/snake/sanitising preserve the case-folded alphanumeric skeleton of a name, hence operationIds distinct in that skeleton (D) yield distinct method, module and request-struct names; that extraction yields exactly one operation per (path, verb). Names synthesised from verb+path are not injective on D: refuted in Coq, open known finding. Operation tables compared with the real extractor on every generated spec.",
+  design_ref="DESIGN.md 7 (C06)",
+  note="Trusted as C08. File-per-operation on disk is tied at the emission level (notes)."),
+"C05":dict(level_text="Coq proof that the extracted parameter table of an operation equals the declared input list computed straight from the OpenAPI document (operation parameters, unshadowed path-item parameters, flattened body properties with requiredness taken from the declaring allOf member and nullability) — same names, locations and requiredness, none dropped or duplicated — and that sorting only permutes it. Tied to the real extractor on every generated spec; direct oracle recomputes the declared inputs in Rust.",
+  design_ref="DESIGN.md 7 (C05)",
+  note="Trusted as C08. Positional-vs-struct arguments and setters of the emitted interface are tied at the emission level (notes)."),
 }
 m={"version":1,
  "setup_cmd":"./setup.sh",
